@@ -96,6 +96,8 @@ type nameStatus struct {
 	Unstable  bool
 }
 
+var b1Phase1 []*FuncResult
+
 var rank = map[string]int{"proved": 0, "unknown": 1, "error": 2, "failed": 3}
 
 func cmdCheck(args []string) {
@@ -131,6 +133,15 @@ func cmdCheck(args []string) {
 		os.Exit(2)
 	}
 	targets := env.targetsFor(prop)
+	var b1Sweep []string
+	if prop == "C19" {
+		var contracted []string
+		contracted, b1Sweep = env.b1Targets()
+		targets = nil
+		for _, k := range contracted {
+			targets = append(targets, propTarget{k, "B1"})
+		}
+	}
 	if len(targets) == 0 {
 		fmt.Fprintf(os.Stderr, "vq: no contract carries property %s\n", prop)
 		os.Exit(2)
@@ -142,10 +153,82 @@ func cmdCheck(args []string) {
 	}
 	var results []*FuncResult
 	var jobs []solveJob
-	for _, t := range targets {
-		fr := env.verifyFuncWithKnown(t.key, t.mode, prop, known)
+	var sweptUncovered []string
+	if prop == "C19" {
+		// phase 2 of B1: functions without a contract that touch guarded state and were not inlined into a verified caller
+		inl := map[string]bool{}
+		var phase1 []*FuncResult
+		for _, t := range targets {
+			fr := env.verifyFuncWithKnown(t.key, t.mode, prop, known)
+			phase1 = append(phase1, fr)
+			if fr.VC != nil {
+				for k := range fr.VC.inlined {
+					inl[k] = true
+				}
+			}
+		}
+		// unexported helpers that some verified function inlines are checked in their callers' lock context, not standalone
+		var sweepRes []*FuncResult
+		for _, k := range b1Sweep {
+			fr := env.verifyFuncWithKnown(k, "B1", prop, known)
+			sweepRes = append(sweepRes, fr)
+			if fr.VC != nil {
+				for c := range fr.VC.inlined {
+					inl[c] = true
+				}
+			}
+		}
+		for i, k := range b1Sweep {
+			if inl[k] && !exportedFuncKey(k) {
+				continue
+			}
+			targets = append(targets, propTarget{k, "B1"})
+			phase1 = append(phase1, sweepRes[i])
+		}
+		b1Phase1 = phase1
+	}
+	for ti, t := range targets {
+		var fr *FuncResult
+		if prop == "C19" && ti < len(b1Phase1) {
+			fr = b1Phase1[ti]
+		} else {
+			fr = env.verifyFuncWithKnown(t.key, t.mode, prop, known)
+		}
+		if prop == "C19" && env.cs.Funcs[t.key] == nil && len(fr.Unbound) > 0 {
+			// swept function outside the executor's subset: reported as not covered, not as a violation
+			sweptUncovered = append(sweptUncovered, t.key+": "+strings.Join(fr.Unbound, "; "))
+			fr.Unbound = nil
+			fr.VC = nil
+		}
 		results = append(results, fr)
 		if fr.VC != nil {
+			if t.mode == "B1" {
+				// only the lock-discipline obligations belong to this mode; the function's other obligations are checked under their own properties
+				var keep []*Obligation
+				for _, o := range fr.VC.obls {
+					if o.Kind == "guard" {
+						keep = append(keep, o)
+					}
+				}
+				fr.VC.obls = keep
+				fr.VC.feasLines, fr.VC.loopFeas = nil, nil
+				if len(fr.Unbound) > 0 && env.cs.Funcs[t.key] != nil {
+					// contract-binding failures are reported by the properties that own the contract
+					sweptUncovered = append(sweptUncovered, t.key+": "+strings.Join(fr.Unbound, "; "))
+					fr.Unbound = nil
+				}
+			}
+			if t.mode == "B2" {
+				// B2-lite: only the obligations written for this mode (labels b2-*) are claimed; everything else is SEQ's business
+				var keep []*Obligation
+				for _, o := range fr.VC.obls {
+					if strings.Contains(o.Name, ":b2-") {
+						keep = append(keep, o)
+					}
+				}
+				fr.VC.obls = keep
+				fr.VC.feasLines, fr.VC.loopFeas = nil, nil
+			}
 			for _, o := range fr.VC.obls {
 				if o.OnlyProps {
 					keep := false
@@ -438,11 +521,23 @@ func cmdCheck(args []string) {
 		}
 	}
 	assumptions = append(assumptions, "machine integers are modelled as mathematical integers with a no-overflow obligation at every + - * (kind ovf); conversions are modelled exactly")
+	seenMode := map[string]bool{}
 	for _, t := range targets {
-		if t.mode == "SEQ" {
-			assumptions = append(assumptions, "sequential mode: each function is verified running without interference from other goroutines")
-			break
-		}
+		seenMode[t.mode] = true
+	}
+	if seenMode["SEQ"] {
+		assumptions = append(assumptions, "sequential mode: each function is verified running without interference from other goroutines")
+	}
+	if seenMode["B1"] {
+		assumptions = append(assumptions,
+			"B1 lock discipline: decided for the fields declared guarded_by/frozen in the contract files only (Queue chunk pointers, PriorityQueue.insertionCount and heap items, Manager.items/roundRobinIndex, List.len and Node.next/prev, worker.eventLoopSignal/errorChan/tickers/ctx/cancel); memory synchronised otherwise (atomics, channel hand-off of job fields, Response buffers) is not decided",
+			"B1: lock identity is syntactic (the lock reached through the same object term as the field); 'any T.mx' rules accept any held lock of that type (a node is assumed to belong to at most one list, a heapQueue to one PriorityQueue)",
+			"B1: objects allocated by the function under verification are exempt until it returns (constructors); publication inside the constructor is not tracked",
+			"B1: functions that neither have a contract nor are inlined into a verified caller are swept with an empty contract; those the executor cannot run are listed under coverage.b1_not_covered and are NOT checked",
+			"B1: `concurrent` closures (the per-job worker closures) must not store to captured variables; reads of captured variables and stores by non-concurrent closures are not checked")
+	}
+	if seenMode["B2"] {
+		assumptions = append(assumptions, "B2-lite: only worker.status is treated as changed by other goroutines, and only across the blocking waits (WaitUntilFinished, PauseAndWait); obligations labelled b2-* are proved under that havoc; no other interference is modelled")
 	}
 	// requires clauses of entry points are assumptions about callers
 	for _, fr := range results {
@@ -483,14 +578,19 @@ func cmdCheck(args []string) {
 			"known_finding_obligations": kfObls,
 			"unbound_contracts":        unboundList,
 			"bounded_standins":         []string{},
+			"b1_not_covered":           sweptUncovered,
 			"contract_sources":         srcs,
 			"lemmas":                   len(lemmaObls),
 		},
 		"assumptions": assumptions,
 	}
-	os.MkdirAll(filepath.Join(verifDir(), "evidence"), 0o755)
+	evDir := filepath.Join(verifDir(), "evidence")
+	if d := os.Getenv("VQ_EVIDENCE_DIR"); d != "" {
+		evDir = d // seed runs: keep the committed evidence (from the unchanged tree) intact
+	}
+	os.MkdirAll(evDir, 0o755)
 	data, _ := json.MarshalIndent(ev, "", " ")
-	os.WriteFile(filepath.Join(verifDir(), "evidence", prop+".json"), data, 0o644)
+	os.WriteFile(filepath.Join(evDir, prop+".json"), data, 0o644)
 
 	if writeLock {
 		lock[prop] = order
